@@ -385,7 +385,7 @@ func (c *efConfig) run(fn *ssa.Function, tracked map[int]bool, env map[int]bool)
 			}
 			// spilled copy of the parameter
 			for v := range o {
-				if a, ok := v.(*ssa.Alloc); ok && a.Comment == pr.Name() {
+				if a, ok := v.(*ssa.Alloc); ok && spilledParam(a) == pr {
 					clean = false
 				}
 			}
